@@ -412,6 +412,14 @@ func BuildFileIndexFromJournal(path string, journal *ast.Journal) *FileIndex {
 }
 
 func resolveIncludePaths(basePath string, includes []ast.Include) []string {
+	resolved := resolveIncludePathsInOrder(basePath, includes)
+	sort.Strings(resolved)
+	return resolved
+}
+
+// resolveIncludePathsInOrder resolves the include directives in document order (the matches of
+// a glob in sorted order), each path once.
+func resolveIncludePathsInOrder(basePath string, includes []ast.Include) []string {
 	if len(includes) == 0 {
 		return nil
 	}
@@ -447,7 +455,6 @@ func resolveIncludePaths(basePath string, includes []ast.Include) []string {
 			resolved = append(resolved, resolvedPath)
 		}
 	}
-	sort.Strings(resolved)
 	return resolved
 }
 
